@@ -539,6 +539,17 @@ def plan(plan, tier, seed):
         detach_unit(plan)
     except Exception as e:
         plan.anchor_errors.append(("C05.verus.detach_variable_value.fresh_storage", repr(e)))
+    # what a reference to a name denotes: var() whole
+    nv = "C05.verus.var.environment_then_symbol_table"
+    plan.ob(nv, "verus", "proved", functions=["src/interpreter/src/expressions.rs: var (whole body, its closure lifted)"],
+            what="a reference to a name denotes the binding of the enclosing environment when it has one (pattern / comprehension variables shadow globals), otherwise the symbol-table entry as a reference to its cell, otherwise it is an undefined-variable error; a kind annotation converts exactly that value (conversion rule: C12); the symbol table is not written")
+    try:
+        from units import vC05v, vC16
+        utext, vfns = vC05v.unit(vlib.read_repo(vC05v.PATH), vC16.default_features(vlib.read_repo("src/interpreter/Cargo.toml")))
+        plan.verus.append(VerusUnit("c05_var", utext, {f: nv for f in vfns}, ["canary_c05_var"]))
+        plan.dropped.append(vC05v.__doc__.strip())
+    except AnchorLost as e:
+        plan.anchor_errors.append((nv, str(e)))
     # 'a statement that fails leaves every existing binding exactly as before': for an indexed assignment the binding is
     # the sink matrix the kernel writes in place, so the clause is the .atomic obligation of the assignment kernels (proved
     # or refuted in C04); two representative kernels are re-checked here so that this check reports the finding as well
